@@ -45,7 +45,14 @@ def sub_basis(rng):
         # the tree-rewriting code (update_tree / update_sums) is written for bases whose binary operators include
         # + and * (all shipped bases do); most sub-bases respect that, the rest probe outside it
         bi = sorted(set(bi) | {'+', '*'}, key=BINARY.index)
-    return [["x", "a"], un, bi]
+    nul = ["x", "a"]
+    r = rng.random()
+    if r < 0.2:
+        nul = ["a", "x"]              # operator ORDER inside a basis list decides the enumeration order, hence which rank owns what
+    if rng.random() < 0.3:
+        rng.shuffle(un)
+        rng.shuffle(bi)
+    return [nul, un, bi]
 
 
 def in_supported_domain(basis):
